@@ -70,6 +70,19 @@ func patchTreasuresOneSwamp(ctx context.Context, g Gateway, in *hydrapb.PatchTre
 	}
 
 	hydraInterface := g.ZeusInterface.GetHydra()
+
+	// Without CreateIfNotExist nothing can be stored in a swamp that does not exist: answer KEY_NOT_FOUND
+	// for every key instead of summoning it (summoning left an empty swamp behind that then "existed").
+	if !in.GetCreateIfNotExist() {
+		if isExist, existErr := hydraInterface.IsExistSwamp(in.GetIslandID(), swampName); existErr != nil || !isExist {
+			results := make([]*hydrapb.PatchResult, 0, len(in.GetPatches()))
+			for _, patch := range in.GetPatches() {
+				results = append(results, &hydrapb.PatchResult{Key: patch.GetKey(), Status: hydrapb.PatchResult_KEY_NOT_FOUND})
+			}
+			return results, false, nil
+		}
+	}
+
 	swampObj, err := hydraInterface.SummonSwamp(ctx, in.GetIslandID(), swampName)
 	if err != nil {
 		return nil, false, status.Error(codes.Internal, fmt.Sprintf("internal server error in hydra: %s", err.Error()))
